@@ -24,10 +24,92 @@ func scaleCases(tier string) []scalekit.Case {
 	for _, n := range scale.Sizes(48, max) {
 		out = append(out, scalekit.Case{Shape: "wide-copy", N: n})
 	}
+	for n := 0; n <= 40; n++ {
+		for v := 0; v < 4; v++ {
+			out = append(out, scalekit.Case{Shape: "late-module", N: n, V: v})
+		}
+	}
 	return out
 }
 
+// late-module: n filler modules (with revisions when the variant is odd) and a base module are
+// loaded and processed and every node is asked for its module; then a further module (without a
+// revision for variants 0 and 1) that has data of its own, uses a grouping of base and augments base
+// is loaded, everything is processed again, and every node is asked again.
+func checkLateModule(cs scalekit.Case) scalekit.Verdict {
+	ms := yang.NewModules()
+	parse := func(name, text string) error { return ms.Parse(text, name) }
+	rev := ""
+	if cs.V%2 == 1 {
+		rev = " revision 2020-02-02;"
+	}
+	for i := 0; i < cs.N; i++ {
+		if err := parse(fmt.Sprintf("f%d.yang", i), fmt.Sprintf(`module f%d { namespace "urn:f%d"; prefix f;%s leaf x { type string; } }`, i, i, rev)); err != nil {
+			return scalekit.Bad("load-error", "loads", err.Error())
+		}
+	}
+	if err := parse("base.yang", `module base { namespace "urn:base"; prefix base;`+rev+` grouping g { leaf gl { type string; } container gc { leaf gcl { type string; } } } container top { config false; leaf own { type string; } } }`); err != nil {
+		return scalekit.Bad("load-error", "loads", err.Error())
+	}
+	ask := func() string {
+		for name, m := range ms.Modules {
+			want := m.Name
+			var bad string
+			var walk func(e *yang.Entry, p string, want string)
+			walk = func(e *yang.Entry, p string, want string) {
+				if bad != "" {
+					return
+				}
+				w := want
+				if ns := e.Namespace(); ns != nil && ns.Name == "urn:late" {
+					w = "late"
+				}
+				if im, err := e.InstantiatingModule(); err != nil || im != w {
+					bad = fmt.Sprintf("%s%s: InstantiatingModule()=%q,%v want %s", name, p, im, err, w)
+				}
+				for k, c := range e.Dir {
+					walk(c, p+"/"+k, want)
+				}
+			}
+			for k, c := range yang.ToEntry(m).Dir {
+				walk(c, "/"+k, want)
+			}
+			if bad != "" {
+				return bad
+			}
+		}
+		return ""
+	}
+	if errs := ms.Process(); len(errs) > 0 {
+		return scalekit.Bad("spurious-errors", "no errors", dump.Errors(errs))
+	}
+	if bad := ask(); bad != "" {
+		return scalekit.Bad("config-or-namespace-wrong", "the module whose text placed the node", bad)
+	}
+	lateRev := ""
+	if cs.V >= 2 {
+		lateRev = " revision 2021-03-03;"
+	}
+	if err := parse("late.yang", `module late { namespace "urn:late"; prefix late;`+lateRev+` import base { prefix b; } container mine { uses b:g; leaf ml { type string; } } augment /b:top { leaf late-leaf { type string; } container lc { uses b:g; } } }`); err != nil {
+		return scalekit.Bad("load-error", "loads", err.Error())
+	}
+	if errs := ms.Process(); len(errs) > 0 {
+		return scalekit.Bad("spurious-errors", "no errors", dump.Errors(errs))
+	}
+	if bad := ask(); bad != "" {
+		return scalekit.Bad("config-or-namespace-wrong", "the module whose text placed the node, also for a module loaded after the first lookups", bad+fmt.Sprintf(" (%d modules loaded before)", cs.N+1))
+	}
+	top := yang.ToEntry(ms.Modules["base"]).Dir["top"]
+	if e := scalekit.Down(top, "lc", "gc", "gcl"); e == nil || !e.ReadOnly() {
+		return scalekit.Bad("config-or-namespace-wrong", "grafted copy below config false is read-only", "not")
+	}
+	return scalekit.OK()
+}
+
 func checkScale(cs scalekit.Case) scalekit.Verdict {
+	if cs.Shape == "late-module" {
+		return checkLateModule(cs)
+	}
 	for _, rev := range []bool{false, true} {
 		ms, errs, lerr := scalekit.Load(scale.Wide(cs.N), rev)
 		if lerr != nil {
